@@ -11,13 +11,13 @@ LEAN_MODULE = "PoetryVerif.Props.C16"
 RULE = ("pairs of constraint texts with 1-3 '||' groups of 1-3 clauses (operators ==, !=, bare, =; varied spacing, | and ||) over "
         "the alphabet a,b,c,d, for the generic and for the `extra` parser; probes = every mentioned value + 2 unseen ones "
         "(generic) / every subset of the mentioned extras, with and without an unseen one (extra); a share of operands are "
-        "left folds of intersect/union/invert over parsed texts so that algebra results are fed back in; an in/not-in stream "
-        "(substring-related values, correspondence only) and a malformed token-soup stream. Thorough: exhaustive over all "
+        "left folds of intersect/union/invert over parsed texts so that algebra results are fed back in; quick tier also exhaustive over all constraints with <=2 groups of <=2 clauses over 2 values, all ordered pairs, both variants; an in/not-in stream "
+        "(substring-related values, probes incl. concatenations; correspondence only; thorough: exhaustive over 222 four-operator constraints, all ordered pairs) and a malformed token-soup stream. Thorough: exhaustive over all "
         "constraints with <=2 groups of <=2 clauses (the clauses of a group taken as a set) over 3 values, all ordered pairs, both variants. "
         "A case is non-trivial when both operands parse; distinct = distinct (variant, a, b).")
 ASSUMPTIONS = [
     "Python `re` (split/match, IGNORECASE), str.strip and set/frozenset hashing are trusted; the model's hand tokeniser is tied to them by the parse and malformed streams",
-    "theorems are over the ==/!= fragment (what the property states); in/not-in atoms are covered by the correspondence and by atom-level lemmas only",
+    "the property states the ==/!= fragment; the four-operator theorems (g4_*) go beyond it and exclude the test-pinned `not in` U `not in` -> Any call site (known finding notin-union-notin-any)",
     "the `extra` semantics is the one of markers.py:SingleMarker.validate (== : member of the active set, != : not a member), without name canonicalisation",
     "operands of the in/not-in and malformed streams are compared model-vs-code but not judged by the oracle (outside the ==/!= fragment)",
 ]
@@ -293,6 +293,10 @@ def mentioned(texts: list[str]) -> list[str]:
 def probes_for(x: bool, a: str, b: str) -> list[str]:
     vals = mentioned([a, b])
     if not x:
+        if "'" in a or '"' in a or "'" in b or '"' in b:
+            # substring semantics: concatenations of mentioned values separate `in` / `not in` atoms
+            cat = [p + q for p in vals for q in vals if p != q][:12]
+            return vals + [c for c in cat if c not in vals] + UNSEEN + [""]
         return vals + UNSEEN
     vals = [v for v in vals if "," not in v][:4]
     out = []
@@ -406,12 +410,16 @@ def correspondence(ctx: core.Ctx) -> None:
         v = "x" if x else "g"
         check_parse(ctx, x, CORPUS_PARSE, f"{v}-corpus-parse")
         check_pairs(ctx, x, CORPUS, f"{v}-corpus")
-        n = ctx.budget(6000, 30000)
+        if not ctx.thorough:
+            # exhaustive small scope in the quick tier: <=2 groups of <=2 clauses over 2 values, all ordered pairs
+            u2 = universe(["a", "b"])
+            check_pairs(ctx, x, [(p, q) for p in u2 for q in u2], f"{v}-exhaustive-2")
+        n = ctx.budget(4000, 30000)
         pairs = [(gen_text(rnd), gen_text(rnd)) for _ in range(n)]
         check_pairs(ctx, x, pairs, f"{v}-gen")
-        chains = [(gen_operand(rnd, 0.5), gen_operand(rnd, 0.35)) for _ in range(ctx.budget(3000, 15000))]
+        chains = [(gen_operand(rnd, 0.5), gen_operand(rnd, 0.35)) for _ in range(ctx.budget(2500, 15000))]
         check_pairs(ctx, x, chains, f"{v}-chain")
-        soup = [gen_soup(rnd) for _ in range(ctx.budget(4000, 20000))]
+        soup = [gen_soup(rnd) for _ in range(ctx.budget(3000, 20000))]
         soup = [s for s in soup if core.valid_utf8(s) and SEP not in s]
         check_parse(ctx, x, soup, f"{v}-malformed")
         ok_soup = [s for s in soup if impl_parse(x, s, [])[0] == "ok"][: ctx.budget(300, 2000)]
@@ -421,6 +429,10 @@ def correspondence(ctx: core.Ctx) -> None:
     inp = [(gen_in_text(rnd), gen_in_text(rnd)) for _ in range(ctx.budget(2500, 25000))]
     check_pairs(ctx, False, inp, "g-in", judge=False)
     if ctx.thorough:
+        uin = universe_in()
+        pairs = [(p, q) for p in uin for q in uin]
+        for k in range(0, len(pairs), 50000):
+            check_pairs(ctx, False, pairs[k:k + 50000], "g-in-exhaustive", judge=False)
         uni = universe()
         for x in (False, True):
             v = "x" if x else "g"
@@ -429,9 +441,16 @@ def correspondence(ctx: core.Ctx) -> None:
                 check_pairs(ctx, x, pairs[k:k + 50000], f"{v}-exhaustive")
 
 
-def universe() -> list[str]:
+def universe_in() -> list[str]:
+    """four operators over values with substring relations: one clause, two clauses, two one-clause groups"""
+    clauses = [f(v) for v in ["a", "ab", "b"] for f in (lambda v: v, lambda v: "!=" + v, lambda v: f"'{v}' in", lambda v: f"'{v}' not in")]
+    two = [c1 + ", " + c2 for i, c1 in enumerate(clauses) for c2 in clauses[i + 1:]]
+    return clauses + two + [c1 + " || " + c2 for c1 in clauses for c2 in clauses]
+
+
+def universe(vals: list[str] | None = None) -> list[str]:
     """all constraints with <=2 groups of <=2 clauses over 3 values (the clauses of a group as a set)"""
-    clauses = [op + v for v in ["a", "b", "c"] for op in ["", "!="]]
+    clauses = [op + v for v in (vals or ["a", "b", "c"]) for op in ["", "!="]]
     groups = list(clauses) + [c1 + "," + c2 for i, c1 in enumerate(clauses) for c2 in clauses[i + 1:]]
     return groups + [g1 + " || " + g2 for g1 in groups for g2 in groups]
 
